@@ -383,9 +383,9 @@ Proof.
     rewrite IH, <- app_assoc. reflexivity.
 Qed.
 
-Lemma row0_spec : forall t1, vp_row0 RN t1 = rowof [] t1.
+Lemma row0_spec : forall t1 : list R, vp_row0 RN t1 = rowof [] t1.
 Proof.
-  intros t1. unfold vp_row0, rowof. cbn [rev].
+  intros t1. unfold vp_row0, rowof. cbn [rev]. change (T RN) with R.
   change (seq 0 (S (length t1))) with (seq (length (@nil R)) (S (length t1))).
   rewrite <- (prefixes_lengths t1 []). rewrite map_map. apply map_ext. intros s.
   rn_simpl. rewrite <- INR_IZR_INZ, D_nil_l, rev_length. reflexivity.
@@ -401,3 +401,85 @@ Proof.
   - destruct t1; discriminate.
 Qed.
 End Refine.
+
+(* ------------------------------------------------------------------ the obligations: laws of the model of the code *)
+Lemma rev_inj : forall a b : list R, rev a = rev b -> a = b.
+Proof. intros a b H. rewrite <- (rev_involutive a), <- (rev_involutive b), H. reflexivity. Qed.
+
+(* the value computed by the grid is the cost of the cheapest edit script (between the trains read backwards,
+   which is the same set of alignments), for every cost including inf *)
+Theorem vp_equals_min_over_scripts : forall cost (t0 t1 : list R),
+  (forall (s : script (rev t0) (rev t1)) c, script_cost cost s = Some c -> vp_tensor RN cost t0 t1 <= c) /\
+  (exists s : script (rev t0) (rev t1), script_cost cost s = Some (vp_tensor RN cost t0 t1)).
+Proof.
+  intros cost t0 t1. unfold vp_tensor. rewrite vp_dp_is_D. split.
+  - intros s c H. eapply D_le_script; eassumption.
+  - apply D_attained.
+Qed.
+
+Theorem vp_nonneg : forall cost (t0 t1 : list R), nonneg_cost cost -> 0 <= vp_tensor RN cost t0 t1.
+Proof. intros; unfold vp_tensor; rewrite vp_dp_is_D; apply D_nonneg; assumption. Qed.
+
+Theorem vp_bounds : forall cost (t0 t1 : list R), nonneg_cost cost ->
+  Rabs (INR (length t0) - INR (length t1)) <= vp_tensor RN cost t0 t1 <= INR (length t0) + INR (length t1).
+Proof.
+  intros cost t0 t1 Hc. unfold vp_tensor. rewrite vp_dp_is_D.
+  rewrite <- (rev_length t0), <- (rev_length t1). split; [apply D_lower; assumption | apply D_upper].
+Qed.
+
+(* the documented limits: cost 0 -> |n - m|, cost inf -> n + m; computed by the dynamic programme itself *)
+Theorem vp_cost_limits : forall t0 t1 : list R,
+  vp_tensor RN (Some 0) t0 t1 = Rabs (INR (length t0) - INR (length t1)) /\
+  vp_tensor RN None t0 t1 = INR (length t0) + INR (length t1).
+Proof.
+  intros. unfold vp_tensor. rewrite !vp_dp_is_D, D_cost_zero, D_cost_inf, !rev_length. split; reflexivity.
+Qed.
+
+(* hence the two shortcuts of the python-number branch agree with the tensor branch for EVERY cost *)
+Theorem vp_scalar_tensor_agree : forall cost (t0 t1 : list R),
+  vp_scalar RN cost t0 t1 = vp_tensor RN cost t0 t1.
+Proof.
+  intros cost t0 t1. unfold vp_scalar. destruct cost as [q|].
+  - rn_simpl. destruct (Reqb'_spec q 0) as [-> | Hq]; [|reflexivity].
+    destruct (vp_cost_limits t0 t1) as [-> _].
+    rewrite abs_IZR, minus_IZR, <- !INR_IZR_INZ. reflexivity.
+  - destruct (vp_cost_limits t0 t1) as [_ ->]. rn_simpl. rewrite plus_IZR, <- !INR_IZR_INZ. reflexivity.
+Qed.
+
+Theorem vp_symmetric : forall cost (t0 t1 : list R), vp_tensor RN cost t0 t1 = vp_tensor RN cost t1 t0.
+Proof. intros; unfold vp_tensor; rewrite !vp_dp_is_D; apply D_sym. Qed.
+
+Theorem vp_identity : forall q (t : list R), 0 <= q -> vp_tensor RN (Some q) t t = 0.
+Proof. intros; unfold vp_tensor; rewrite vp_dp_is_D; apply D_refl; assumption. Qed.
+
+Theorem vp_zero_iff_equal : forall q (t0 t1 : list R), 0 < q -> (vp_tensor RN (Some q) t0 t1 = 0 <-> t0 = t1).
+Proof.
+  intros q t0 t1 Hq. unfold vp_tensor. rewrite vp_dp_is_D. split.
+  - intros H. apply rev_inj. eapply D_zero_eq; eassumption.
+  - intros ->. apply D_refl; lra.
+Qed.
+
+Theorem vp_triangle : forall cost (a b c : list R), nonneg_cost cost ->
+  vp_tensor RN cost a c <= vp_tensor RN cost a b + vp_tensor RN cost b c.
+Proof. intros; unfold vp_tensor; rewrite !vp_dp_is_D; apply D_triangle; assumption. Qed.
+
+Theorem vp_monotone_in_cost : forall q1 q2 (t0 t1 : list R), 0 <= q1 <= q2 ->
+  vp_tensor RN (Some q1) t0 t1 <= vp_tensor RN (Some q2) t0 t1 <= vp_tensor RN None t0 t1.
+Proof.
+  intros q1 q2 t0 t1 H. unfold vp_tensor. rewrite !vp_dp_is_D. split.
+  - apply D_mono_cost; assumption.
+  - apply D_le_inf; lra.
+Qed.
+
+(* At cost = inf the value is NOT zero on identical trains: d(a, a) = 2|a|.  This is the behaviour the docstring
+   warns about ("using inf as the cost will only return the total number of spikes, not accounting for spikes
+   occurring at the same time"), so "identity of indiscernibles" holds for finite costs only. *)
+Theorem vp_inf_self : forall t : list R, vp_tensor RN None t t = 2 * INR (length t).
+Proof. intros t. destruct (vp_cost_limits t t) as [_ E]. rewrite E. rn_simpl. lra. Qed.
+
+(* at cost 0 distinct trains of equal length are at distance 0 (a pseudo-metric there) *)
+Theorem vp_zero_cost_pseudo : exists t0 t1 : list R, t0 <> t1 /\ vp_tensor RN (Some 0) t0 t1 = 0.
+Proof.
+  exists [0], [1]. split; [intros H; inversion H; lra|].
+  destruct (vp_cost_limits [0] [1]) as [-> _]. cbn [length]. replace (INR 1 - INR 1) with 0 by ring. apply Rabs_R0.
+Qed.
